@@ -281,6 +281,17 @@ func (d *Downloader) synchronise(id string, hash types.Hash, td uint64) error {
 	d.peers.Reset()
 	d.checks = make(map[types.Hash]*crossCheck)
 
+	// Drop whatever a cancelled synchronisation left in the channels
+	for empty := false; !empty; {
+		select {
+		case <-d.hashCh:
+		case <-d.blockCh:
+		case <-d.processCh:
+		default:
+			empty = true
+		}
+	}
+
 	// Create cancel channel for aborting mid-flight
 	d.cancelLock.Lock()
 	d.cancelCh = make(chan struct{})
